@@ -33,6 +33,30 @@ LEDGER_CALLERS = {
         'error::summarize_missing': 'error text: looks at the whole line on a private clone'},
 }
 
+# who may fork the state: an attempt that may be thrown away runs on a clone; everybody else works on the state it was given, so that
+# what a deeper parser consumed (and how deep it got) is still there when its failure reaches an enclosing choice or command
+FORKERS = {
+    'structs::parse_option': 'optional / many / some / ..: the attempt is undone when its failure is absorbed',
+    '<structs::ParseFallback<P, T> as Parser<T>>::eval': 'fallback: attempt undone when the value is substituted',
+    '<structs::ParseFallbackWith<T, P, F, E> as Parser<T>>::eval': 'fallback_with: same',
+    '<structs::ParseOrElse<T> as Parser<T>>::eval': 'alternatives: one fork per branch, exactly one adopted',
+    '<structs::ParseAdjacent<P> as Parser<T>>::eval': 'adjacent group: probes and attempts on scratch states',
+    '<params::ParseCommand<T> as Parser<T>>::eval': 'adjacent command: retry on the narrowed block',
+    "<args::inner::ArgRangesIter<'a> as std::iter::Iterator>::next": 'adjacent group: one scratch state per start position',
+    'error::summarize_missing': 'error text only: looks at a private clone',
+}
+
+def forkers(ctx, cfg, fs, rule):
+    seen = {}
+    for b in fs.bodies.values():
+        for c in b.calls():
+            if c.is_(r'^<args::inner::State as std::clone::Clone>::clone$'):
+                seen.setdefault(outer(b.path), c.where())
+    if not seen:
+        raise Broken('no caller of State::clone found')
+    for fn, where in sorted(seen.items()):
+        ctx.ob(rule, 'forks:State<-%s' % short(fn), fs.listed(fn, FORKERS), '%s clones the State: %s' % (short(fn), FORKERS.get(fn, 'NOT a listed forking site (a pass-through wrapper must evaluate its inner parser on the state it was given)')), where=where, cfg=cfg)
+
 def ledger_callers(ctx, cfg, fs, rule):
     """an item is taken off the line only by the five consumers: a parser that peeks at / removes a neighbouring item on its
     own (a flag eating a following `true`) makes the outcome depend on what happens to stand next to it"""
